@@ -46,6 +46,14 @@ def std_queries(tier, seed, depth2=True):
             for depth in (0, 1):
                 for script, pos in worlds.scripts(q, depth, full, chim):
                     out.append((ri, dict(window=[ri, s, l], reverse=rev, offset=off, script=_js(script)), [round(p + off, 1) for p in pos]))
+            # chimera x coincident label near the junction (a 2-deviation slice): a second-pass fragment then starts at / next to the
+            # second of two coincident labels, where label numbers are easily off by one
+            for other, gap in (chim[0], chim[2]):
+                cq = worlds.apply_edit(q, ('chimera', list(other), gap))
+                for j in range(max(1, len(q) - 4), min(len(cq) - 1, len(q) + 4)):
+                    dq = worlds.apply_edit(cq, ('dup', j))
+                    out.append((ri, dict(window=[ri, s, l], reverse=rev, offset=off, script=[['chimera', 'window', gap], ['dup', j]]),
+                                [round(p + off, 1) for p in dq]))
             if depth2 and tier == 'thorough' and wi % 5 == 0:
                 for script, pos in worlds.scripts(q, 2, False, chim[:2]):
                     out.append((ri, dict(window=[ri, s, l], reverse=rev, offset=off, script=_js(script)), [round(p + off, 1) for p in pos]))
@@ -70,7 +78,19 @@ def std_worlds(tier, seed, per_world=4, depth2=True):
             queries = [worlds.as_map(QIDS[j], pos, trailing=(0.0, 2500.0)[(i + j) % 2]) for j, (desc, pos) in enumerate(grp)]
             wrefs = [refs[ri]] if (i // per_world) % 3 else [refs[ri], refs[(ri + 1) % 3], refs[(ri + 2) % 3]]
             ws.append(dict(refs=wrefs, queries=queries, desc=[d for d, _ in grp], extra_column=(i // per_world) % 2 == 1))
+    ws.append(far_world())
     return ws
+
+
+def far_world():
+    """a reference whose coordinates lie beyond 2^24 bp (17.3 Mb, one decimal): single-precision arithmetic anywhere between the
+    CMAP text and the XMAP text shows as wrong RefStartPos / RefEndPos / RefLen"""
+    far = worlds.catalogue_ref(2, 'menu', 40, ref_id=77, lead=17300000.4)
+    qs = []
+    for j, (s, l, rev) in enumerate(((5, 16, False), (14, 18, True), (20, 12, False))):
+        q = worlds.window_query(far, s, l, rev)[0][2]
+        qs.append(worlds.as_map(QIDS[j], q, trailing=2500.0 * (j % 2), offset=(0.0, 777.7, 20.0)[j]))
+    return dict(refs=[far], queries=qs, desc=['far-coordinate reference (17.3 Mb)'] * 3)
 
 
 # ------------------------------------------------------------------------------------------------
@@ -360,6 +380,19 @@ def readback_problems(txt, readers, rmaps, qmaps, only_valid=True):
                 if any(x.reference.position != rp[x.reference.siteId - 1] or
                        abs(x.query.position - (qp[x.query.siteId - 1] - qp[0])) > 1e-6 for x in b.alignedPairs):
                     out.append(('readback-pair-coordinates', '%s %s' % (label, b.alignedPairs), {}))
+    # the reader's own id filters: a filter that matches nothing yields an empty list, one that names a query yields its records
+    try:
+        if plain.readAlignments(io.StringIO(txt), queryIds=[987654321]) != []:
+            out.append(('readback-filter', 'queryIds filter matching nothing did not return []', {}))
+        if plain.readAlignments(io.StringIO(txt), alignmentIds=[987654321]) != []:
+            out.append(('readback-filter', 'alignmentIds filter matching nothing did not return []', {}))
+        if recs:
+            q0 = int(recs[0]['QryContigID'])
+            got = plain.readAlignments(io.StringIO(txt), queryIds=[q0])
+            if len(got) != sum(1 for r in recs if int(r['QryContigID']) == q0):
+                out.append(('readback-filter', 'queryIds=[%d] returned %d alignments' % (q0, len(got)), {}))
+    except Exception as e:
+        out.append(('readback-filter-exception', '%s: %s (records=%d)' % (type(e).__name__, str(e)[:200], len(recs)), {}))
     return out, len(recs)
 
 
@@ -463,7 +496,10 @@ def query_sets(n, seed_tag, size=(3, 5)):
     return refs, pool, sets
 
 
-def set_world(refs, pool, idxs, nrefs=3, ids=QIDS, short_ref=False):
+def set_world(refs, pool, idxs, nrefs=3, ids=QIDS, short_ref=False, ref_ids=None):
+    if ref_ids:
+        # reference ids drawn from the SAME numbers as the query ids (CMAP ids of the two files are unrelated name spaces)
+        refs = [(ref_ids[i], r[1], r[2]) for i, r in enumerate(refs)]
     queries = [worlds.as_map(ids[j], pool[i][1], trailing=(0.0, 2500.0)[j % 2], offset=(0.0, 777.7, 20.0)[j % 3]) for j, i in enumerate(idxs)]
     order = [refs[1], refs[0], refs[2]][:nrefs] if nrefs > 1 else [refs[0]]
     if short_ref:
